@@ -27,8 +27,10 @@ inductive FPc where
   /-- about to load the queue head (unlocked pre-check) -/
   | ldHead
   | ldTail (h : Nat)
-  /-- pre-check said full: about to lock the blocked list and push the waker -/
+  /-- pre-check said full: about to lock the blocked list -/
   | lockBlocked
+  /-- holds the blocked-list lock, about to push the waker and unlock -/
+  | pushing
   /-- about to take the submission lock -/
   | lockSub
   | ldHead2
@@ -80,6 +82,9 @@ structure St where
   a completion — no timeout, and (fix d4303dd) no future was waiting for a submission slot
   when the blocked list was looked at -/
   block : Bool := false
+  /-- holder of the blocked-list lock among the futures (the ring thread only takes it inside
+  one of its own steps) -/
+  blockedLock : Option Nat := none
   /-- IORING_SETUP_SQPOLL: a kernel thread takes the submissions — everything that is published
   when the ring thread's `enter` wakes it, not only the `to_submit` the caller computed -/
   kt : Bool := false
@@ -96,8 +101,14 @@ def stepF (s : St) (i : Nat) : St :=
     | .ldHead => setF s i (.ldTail s.H)
     | .ldTail h => if s.T - h ≥ s.len then setF s i .lockBlocked else setF s i .lockSub
     | .lockBlocked =>
-      -- lock, push the waker, unlock: one segment (no scheduling point inside)
-      { setF s i .pending with blocked := s.blocked ++ [i], pushed := s.pushed ++ [i] }
+      -- `lock(&blocked_futures)`: spins while another future holds it
+      match s.blockedLock with
+      | none => { setF s i .pushing with blockedLock := some i }
+      | some _ => s
+    | .pushing =>
+      -- push the waker, unlock
+      { setF s i .pending with blocked := s.blocked ++ [i], pushed := s.pushed ++ [i],
+                               blockedLock := none }
     | .lockSub =>
       match s.subLock with
       | none => { setF s i .ldHead2 with subLock := some i }
@@ -115,8 +126,10 @@ def stepR (s : St) : St :=
   match s.r with
   | .idle => s
   | .start =>
-    -- `has_blocked_futures()` (d4303dd): with futures waiting for a slot the call does not wait
-    { s with r := .enter (s.T - s.H), block := s.inf && s.blocked.isEmpty }
+    -- `has_blocked_futures()` (d4303dd) locks the blocked list (spinning while a future holds it):
+    -- with futures waiting for a slot the call does not wait
+    if s.blockedLock.isSome then s
+    else { s with r := .enter (s.T - s.H), block := s.inf && s.blocked.isEmpty }
   | .enter n =>
     -- the kernel consumes `min n pending`; nothing completes: a call with a timeout returns
     -- (ETIME / Ok(n); both wake), a call without one stays in the kernel
@@ -128,12 +141,16 @@ def stepR (s : St) : St :=
     let avail := s.len - (s.T - h)
     if avail = 0 then { s with r := .idle } else { s with r := .tryLock avail }
   | .tryLock avail =>
-    if s.blocked.isEmpty then { s with r := .idle }
+    -- `try_lock(&blocked_futures)`: a future is inside its push — give up, the next pass will do
+    if s.blockedLock.isSome then { s with r := .idle }
+    else if s.blocked.isEmpty then { s with r := .idle }
     else
       let k := min avail s.blocked.length
       { s with woken := s.woken ++ s.blocked.take k, blocked := [],
                r := .lock2 (s.blocked.drop k) (avail - k) }
   | .lock2 rest left =>
+    -- `lock(&blocked_futures)`: spins while a future holds it
+    if s.blockedLock.isSome then s else
     let n := s.blocked
     let j := min left n.length
     { s with blocked := rest ++ n.drop (n.length - j),
@@ -171,6 +188,7 @@ def showF : FPc → String
   | .ldHead => "at-ld-head1"
   | .ldTail _ => "at-ld-tail1"
   | .lockBlocked => "at-lock-blocked"
+  | .pushing => "at-pushing"
   | .lockSub => "at-lock-sub"
   | .ldHead2 => "at-ld-head2"
   | .ldTail2 _ => "at-ld-tail2"
